@@ -8,6 +8,7 @@ open GoPlugin Wire Crash
 def showRes : Res → String
   | .ok => "ok"
   | .err => "err"
+  | .hang => "hang"
 
 def run (_tag : String) (kv : KV) : String :=
   let P := Facts.crash
@@ -20,15 +21,17 @@ def run (_tag : String) (kv : KV) : String :=
   let fin := settle P dead
   let ex := s!"exited={showBool fin.exited}"
   let ctx := if grpc then s!" ctx={showBool fin.ctxCancelled}" else ""
-  let after := s!"double={showRes (afterCrash .call)} callback2={showRes (afterCrash .brokerDial)} ping={showRes (afterCrash .ping)} kill={showRes (afterCrash .kill)}"
-  if point = "before-output" ∨ point = "mid-line" ∨ point = "after-listener" then
-    s!"start={showRes (afterCrash .start)} {ex} kill={showRes (afterCrash .kill)}"
-  else if point = "after-line" then s!"start=ok client=any {ex} kill={showRes (afterCrash .kill)}"
+  let after := s!"double={showRes (afterCrash P .call)} callback2={showRes (afterCrash P .brokerDial)} ping={showRes (afterCrash P .ping)} kill={showRes (afterCrash P .kill)}"
+  if point = "attached-before-connect" then
+    s!"start=ok client=any latecb={showRes (afterCrash P .brokerAccept)} kill={showRes (afterCrash P .kill)}"
+  else if point = "before-output" ∨ point = "mid-line" ∨ point = "after-listener" then
+    s!"start={showRes (afterCrash P .start)} {ex} kill={showRes (afterCrash P .kill)}"
+  else if point = "after-line" then s!"start=ok client=any {ex} kill={showRes (afterCrash P .kill)}"
   else if point = "during-dispense" ∨ (point = "broker-plugin-accept" ∧ !grpc) then
-    s!"start=ok client=ok dispense={showRes (afterCrash .dispense)} {ex} ping={showRes (afterCrash .ping)} kill={showRes (afterCrash .kill)}"
+    s!"start=ok client=ok dispense={showRes (afterCrash P .dispense)} {ex} ping={showRes (afterCrash P .ping)} kill={showRes (afterCrash P .kill)}"
   else
-    let mid := if point = "in-call-exit" ∨ point = "in-call-kill" then s!" call={showRes (afterCrash .call)}"
-      else if point = "broker-plugin-accept" ∨ point = "broker-plugin-dial" then s!" callback={showRes (afterCrash .brokerDial)}"
+    let mid := if point = "in-call-exit" ∨ point = "in-call-kill" then s!" call={showRes (afterCrash P .call)}"
+      else if point = "broker-plugin-accept" ∨ point = "broker-plugin-dial" then s!" callback={showRes (afterCrash P .brokerDial)}"
       else if point = "during-stdio" then " emit=any" else ""
     s!"start=ok client=ok{mid} {ex}{ctx} {after}"
 
